@@ -3,13 +3,33 @@ import os
 import sys
 sys.path.insert(0, os.path.dirname(os.path.abspath(__file__)))
 import mb_common  # noqa: E402
+import _sys  # noqa: E402
 
 ASSUMPTIONS = [
     "sync.Mutex makes Subscribe/Publish atomic; topic.Tree.Search(filter) on the retained tree returns the values whose topic matches the filter "
     "(C04), in an order that is an oracle argument of the model (Go map iteration)",
     "wills reach the backend through the same Publish call (broker/client.go cleanup), so they are publishes of the history",
+    "that Subscribe and Publish ARE atomic with respect to each other (first assumption) is not taken on trust: the gated families "
+    "(backend mbgate: subscribe_atomic; whole broker c11: subscribe_atomic, retained_replayed) let a retained publish of another client run "
+    "from inside the acknowledgement of the Subscribe and judge the subscriber's view against every position of the subscription among the publishes",
 ]
 
 
 def run(ck):
-    mb_common.run_mb(ck, {"retained", "replay", "cap", "live_copy"}, box_clauses={"retained"}, conc={"conc_retained"})
+    mb_common.run_mb(ck, {"retained", "replay", "cap", "live_copy"}, box_clauses={"retained"}, conc={"conc_retained"},
+                     gate={"subscribe_atomic", "gate_completes"})
+    if ck.replay:
+        return
+    # whole broker: a SUBSCRIBE whose acknowledgement is in progress while another client's retained publish / delete / re-publish
+    # arrives (go/cmd/system c11, r5_backend_c11.go)
+    ev, di, rule = ck.evaluations, ck.distinct, ck.rule
+    ex = _sys.run_sys(ck, "c11")
+    ck.evaluations = ev + ck.stats.get("direct_clauses_evaluated", 0)
+    ck.distinct = di + ck.stats.get("scenarios", 0)
+    ck.rule = rule + ("; plus whole broker (Engine + MemoryBackend over TCP loopback, go/cmd/system c11): retained message replaced / cleared / set / cleared-and-set / "
+                      "replaced twice / set-and-cleared by another client from inside the acknowledgement of a SUBSCRIBE (1-3 filters, overlapping and non-matching ones, "
+                      "QoS pairs rotating): the PUBLISH packets the subscriber receives on the topic equal, as a multiset of (retain flag, payload), the outcome of the "
+                      "subscription taking effect at SOME position among the publishes (subscribe_atomic); an untouched retained topic is replayed once per matching "
+                      "filter (retained_replayed)")
+    if ex:
+        ck.samples = ck.samples[:5] + [l[:600] for l in ex if l.startswith("direct subscribe_atomic")][:2]
